@@ -161,6 +161,20 @@ fn defined(op: &OpK, l: T, r: T) -> bool {
     }
 }
 
+/// value-level refinement of `defined`: what a slice can be indexed by depends on what it is a slice of (a slice of a
+/// list or concatenation by number or symbol, a slice of text or bytes by number only, a slice of anything else by
+/// nothing)
+fn defined_v(op: &OpK, l: &V, r: T) -> bool {
+    if let (Fam::Access, V::Slice(inner, _)) = (op.fam, l) {
+        return match inner.type_of() {
+            T::List | T::Concatenation => r == T::Number || r == T::Symbol,
+            T::CharList | T::ByteList => r == T::Number,
+            _ => false,
+        };
+    }
+    defined(op, l.type_of(), r)
+}
+
 // ---------------------------------------------------------------------------------------------
 // representative values
 
@@ -220,6 +234,7 @@ fn reps_all() -> Vec<(V, bool)> {
         (V::Slice(b(l123.clone()), b(rng(0, 1))), true),
         (V::Slice(b(V::str("abc")), b(rng(1, 2))), true),
         (V::Slice(b(V::Bytes(vec![1, 2, 3])), b(rng(0, 0))), true),
+        (V::Slice(b(V::SymList(vec![sp("a"), sp("b"), sp("c")])), b(rng(0, 1))), true),
         (V::Slice(b(V::Concat(b(V::Concat(b(V::Int(1)), b(V::Int(2)))), b(V::Int(3)))), b(rng(0, 1))), true),
         (V::Partial(b(V::Expr(0)), b(V::Int(5))), true),
         (V::Partial(b(V::Int(5)), b(V::Int(6))), true),
@@ -703,7 +718,7 @@ fn err_kind(m: &str) -> String {
 fn judge(op: &OpK, l: &V, r: Option<&V>, mode: DeferMode, o: &Obs) -> Option<(String, String)> {
     let lt = l.type_of();
     let rt = r.map(|r| effective_right(op, r)).unwrap_or(T::Unit);
-    let is_defined = defined(op, lt, rt);
+    let is_defined = defined_v(op, l, rt);
     // wherever it occurs
     if let Res::Unsupported = o.res {
         return Some(("err-unsupported-op-types".into(), "Err(RuntimeError{UnsupportedOpTypes})".into()));
@@ -800,7 +815,7 @@ enum Verdict {
 fn cell<D: Sub8>(op: &OpK, l: &V, r: Option<&V>, mode: DeferMode, path: Path, layout: Layout) -> (Verdict, usize) {
     let lt = l.type_of();
     let rt = r.map(|r| effective_right(op, r)).unwrap_or(T::Unit);
-    let is_defined = defined(op, lt, rt);
+    let is_defined = defined_v(op, l, rt);
     let run = || if path.is_source() { observe_source::<D>(op, l, r, mode, path == Path::SourceNext) } else { observe::<D>(op, l, r, mode, path, layout) };
     match guard(run) {
         Err(p) => {
@@ -899,7 +914,7 @@ fn detail(e: &OpElem, l: &V, r: Option<&V>, imp: &str, got: &str) -> Value {
         Some(r) => format!("{}: {} {:?} {}  [host {}, {}]", imp, l.show(), e.op.instr, r.show(), mode_name(e.mode), how),
         None => format!("{}: {:?} {}  [host {}, {}]", imp, e.op.instr, l.show(), mode_name(e.mode), how),
     };
-    let expected = if defined(&e.op, lt, rt.unwrap_or(T::Unit)) {
+    let expected = if defined_v(&e.op, l, rt.unwrap_or(T::Unit)) {
         "no UnsupportedOpTypes error escapes the instruction".to_string()
     } else {
         match e.mode {
@@ -999,7 +1014,7 @@ fn run_op(tier: Tier, e: &OpElem, sample: bool, cx: &mut Ctx) -> Vec<Finding> {
             let lt = l.type_of();
             let rt = r.map(|r| effective_right(&e.op, r));
             let key = (tname(lt), rt.map(tname).unwrap_or_else(|| "-".into()));
-            let is_defined = defined(&e.op, lt, rt.unwrap_or(T::Unit));
+            let is_defined = defined_v(&e.op, l, rt.unwrap_or(T::Unit));
             full_universe.insert(key.clone());
             if !is_defined {
                 undefined_universe.insert(key.clone());
